@@ -51,6 +51,8 @@ def check_filters(prop, tier, replay):
     for mode, eq in MODES[prop]:
         out = os.path.join(sc, "filters-%s.ndjson" % mode)
         args = ["filters", "-mode", mode, "-tier", tier, "-seed", str(vlib.seed()), "-out", out] + ([] if eq else ["-noeq"])
+        if eq and tier == "quick":
+            args += ["-eqlimit", "8000"]      # all leaves, all depth-2 terms and the first nested ones pairwise
         rc, so, se = vlib.run_harness(args, timeout=1200)
         if rc != 0:
             # a filter that panics on an object of the universe: the operation cannot be localised cheaply, report it
@@ -176,7 +178,7 @@ def check_joins(prop, tier, replay):
 
 TYPED_CLASSES = {"typed-request-path", "typed-request-query", "typed-request-count", "typed-readiness-differs", "typed-lifecycle-differs",
                  "typed-returns-foreign-object", "typed-nil-event", "typed-list-error-differs", "typed-events-differ", "typed-nil-in-list", "typed-cache-differs",
-                 "typed-monitor-nil-callback", "typed-monitor-differs", "typed-monitor-protocol", "typed-leak", "typed-error", "crash"}
+                 "typed-monitor-nil-callback", "typed-monitor-differs", "typed-monitor-protocol", "typed-healthy-lost-events", "typed-stalled-not-first-buffer", "typed-leak", "typed-error", "crash"}
 
 
 def run_typed(res, tier, want):
